@@ -369,7 +369,24 @@ run_st = st.fixed_dictionaries({
     "order": st.lists(st.sampled_from(MODS + [BAD]), min_size=1, max_size=4, unique=True),
     "after": st.lists(st.sampled_from(MODS), max_size=2, unique=True),
 })
-hist_st = st.fixed_dictionaries({"runs": st.lists(run_st, min_size=2, max_size=5), "same_size": st.sampled_from([False, True, False])})
+_free_hist_st = st.fixed_dictionaries({"runs": st.lists(run_st, min_size=2, max_size=5), "same_size": st.sampled_from([False, True, False])})
+
+
+@st.composite
+def _template_hist(draw):
+    """A module hooked and cached in run 1, edited before run 2 in a way that only ONE of (mtime, size) reveals, hooked again with the
+    same checker in run 2 (so the same cache file is consulted); optional further free runs."""
+    m = draw(st.sampled_from(["pa", "pb", "pkg.sub", "ph"]))
+    ck = draw(st.sampled_from(["a", "b", "none"]))
+    base = {"edit": None, "same_mtime": False, "damage": None, "dont_write": False, "disabled": False, "lazy_spy": draw(st.booleans()), "edit_during": None,
+            "hooks": [[[m], ck]], "order": [m], "after": []}
+    same_size = draw(st.booleans())  # True: the size is kept and the mtime moves; False: the mtime is kept and the size changes
+    second = dict(base, edit=m, same_mtime=not same_size)
+    runs = [base, second] + draw(st.lists(run_st, max_size=2))
+    return {"runs": runs, "same_size": same_size}
+
+
+hist_st = st.one_of(_free_hist_st, _free_hist_st, _free_hist_st, _template_hist())
 
 
 def run(ctx):
